@@ -237,6 +237,39 @@ def san_back(cfg, crate, rep):
     ip_octets(cfg, crate, rep)
 
 
+def _ip_chain(pay, bad):
+    """(width, family) of one success payload of the octet converter when it is a pure conversion chain, else (None, _)"""
+    import re
+    from interp import Sel, Param, MutV, OpV
+    w = fam = None
+    cur = pay
+    while True:
+        if isinstance(cur, StructV) and (cur.variant or "") in ("std::net::IpAddr::V4", "std::net::IpAddr::V6") and "0" in cur.fields and fam is None:
+            fam = 4 if cur.variant.endswith("V4") else 16      # `IpAddr::V4(..)` written out instead of `.into()`
+            cur = cur.fields["0"]
+        elif isinstance(cur, Via) and cur.name in ("into", "from", "try_from", "try_into", "deref", "clone", "copied", "to_owned", "inlined", "?", "borrow", "as_ref"):
+            cal = getattr(cur, "callee", "") or ""
+            m = re.search(r"<std::net::Ip(v4|v6)?Addr as std::convert::From<\[u8; (\d+)\]>>::from", cal)
+            if m:
+                w = int(m.group(2))
+                if (m.group(1) == "v4" and w != 4) or (m.group(1) == "v6" and w != 16) or w not in (4, 16):
+                    bad.append("conversion %s" % cal)
+            cur = cur.inner
+        elif isinstance(cur, Sel) and cur.sel in ("#Ok.0", "?"):
+            cur = cur.base
+        elif isinstance(cur, MutV) and isinstance(cur.base, OpV) and cur.base.op == "repeat" and len(cur.ops) == 1 and cur.ops[0][0] == "call" \
+                and cur.ops[0][1] == "copy_from_slice" and len(cur.ops[0]) == 3:
+            cur = cur.ops[0][2]          # a zeroed array filled with the octets (the length is copy_from_slice's own check)
+        else:
+            break
+    if fam is not None and w is not None and fam != w:
+        bad.append("IpAddr::V%s built from %d octets" % ("4" if fam == 4 else "6", w))
+    if not (isinstance(cur, Param) and cur.r() == "octets") or w is None:
+        bad.append("address is not a plain conversion of the octets: %s" % core(pay).r()[:120])
+        return None, fam
+    return w, fam
+
+
 def ip_octets(cfg, crate, rep, rule="C07.back"):
     """iPAddress octets -> IpAddr: 16 octets are the IPv6 address with exactly those octets, 4 octets the IPv4 address,
     anything else an error.  Decided on the value: every success alternative is a chain of `From`/`Into`/deref
@@ -262,27 +295,14 @@ def ip_octets(cfg, crate, rep, rule="C07.back"):
         if x0.variant == "Err":
             errs += 1
             continue
-        w = None
-        cur = x0.fields.get("0")
-        steps = []
-        while True:
-            if isinstance(cur, Via) and cur.name in ("into", "from", "try_from", "try_into", "deref", "clone", "copied", "to_owned", "inlined", "?", "borrow", "as_ref"):
-                cal = getattr(cur, "callee", "") or ""
-                m = re.search(r"<std::net::Ip(v4|v6)?Addr as std::convert::From<\[u8; (\d+)\]>>::from", cal)
-                if m:
-                    w = int(m.group(2))
-                    if (m.group(1) == "v4" and w != 4) or (m.group(1) == "v6" and w != 16) or w not in (4, 16):
-                        bad.append("conversion %s" % cal)
-                steps.append(cur.name)
-                cur = cur.inner
-            elif isinstance(cur, Sel) and cur.sel in ("#Ok.0", "?"):
-                cur = cur.base
-            else:
-                break
-        if not (isinstance(cur, Param) and cur.r() == "octets") or w is None:
-            bad.append("address is not a plain conversion of the octets: %s" % core(x0.fields.get("0")).r()[:120])
-        else:
-            widths.append(w)
+        payloads_ = [p_ for _, p_ in flatten_phi(x0.fields.get("0"))]
+        for pay_ in payloads_:
+            w, fam = _ip_chain(pay_, bad)
+            if w is not None:
+                widths.append(w)
+
+    # an early `return Err(..)` is an error alternative too
+    errs += len([1 for c_, x_, n_, f_ in I.fails if isinstance(core(x_), StructV) and core(x_).variant == "Err"])
     ok = not bad and sorted(widths) == [4, 16] and errs >= 1
     rep.ob(rule, "%s|%s" % (cfg, fn), ok, "4 / 16 iPAddress octets are imported as exactly that IPv4 / IPv6 address; other lengths are an error", found=bad or {"widths": sorted(widths), "error alternatives": errs})
 
